@@ -171,6 +171,9 @@ structure Core (s : St) : Prop where
   panicF   : s.panic = false
   pendNE   : ∀ b ∈ s.pend, b ≠ []
   deadC    : ∀ (i : Nat) (c : Call), s.calls[i]? = some c → s.dead.contains c.root = true → c.ci.cancelled = true
+  /-- a call that gave up waiting (took the `ctx.Done` branch) had its context cancelled -/
+  drainC   : ∀ (i : Nat) (c : Call), s.calls[i]? = some c →
+               (c.ci.st = .draining ∨ (c.fin = true ∧ c.res = none)) → c.ci.cancelled = true
 
 /-- the part that ties the current resolver call to the context and the reference count -/
 structure Live (s : St) : Prop where
@@ -187,7 +190,7 @@ structure Inv (s : St) : Prop where
   live : Live s
 
 theorem init_inv : Inv ({} : St) := by
-  refine ⟨⟨?_, ?_, ?_, ?_, ?_, ?_, ?_, ?_, ?_, ?_, ?_, ?_, ?_, ?_, ?_, ?_, ?_, ?_, ?_, ?_⟩, ⟨?_, ?_, ?_⟩⟩
+  refine ⟨⟨?_, ?_, ?_, ?_, ?_, ?_, ?_, ?_, ?_, ?_, ?_, ?_, ?_, ?_, ?_, ?_, ?_, ?_, ?_, ?_, ?_⟩, ⟨?_, ?_, ?_⟩⟩
   all_goals (try (intros; simp_all; done))
   · exact Chain.init_inv
 
